@@ -178,7 +178,7 @@ def finish(chk: Check, seed: int = 0, evidence_dir: Optional[str] = None, quiet:
             'notes': chk.notes,
             **chk.extra,
         },
-        'assumptions': chk.assumptions,
+        'assumptions': chk.assumptions + ['stock configuration followed for %s' % x for x in sorted(chk.facts.__dict__.get('_ctor_options_assumed', ()))],
         'wall_s': round(time.time() - chk.t0, 3),
         'violations': len(fresh),
         'known_findings': [o.key for o in known_hits],
